@@ -22,7 +22,7 @@ import ast
 import nfc.clf
 from harness import c18_connect as C
 from env.recdevice import (RecDevice, Trace, SlotEnv, WouldBlock,
-                           make_frontend, open_frontend)
+                           make_frontend, open_frontend, lock_replaced)
 
 PROPERTY = "C15"
 
@@ -32,9 +32,14 @@ def nfc_src():
 
 
 def scan_sites():
-    """-> (direct, indirect): direct = [(name, first line, last line)] of
-    calls self.device.<name>(...) and device.connect(...); indirect = names
-    loaded from self.device without being called in place."""
+    """-> (direct, indirect).  direct = [(label, method, first line, last
+    line)] for every call self.device.<method>(...) and device.connect(...);
+    indirect = [(label, method, function)] for self.device.<method> loaded
+    without being called in place.  A site is named by the enclosing function,
+    the method and its ordinal among the calls of that method in that
+    function ("site:sense:mute#2") - not by its line, so that an edit
+    elsewhere in the file does not rename it; the line range (of the very
+    source that is executed) only maps a driver call back to its site."""
     path = os.path.join(nfc_src(), "nfc", "clf", "__init__.py")
     with open(path, "rb") as f:
         tree = ast.parse(f.read(), path)
@@ -42,31 +47,45 @@ def scan_sites():
     def is_self_device(n):
         return isinstance(n, ast.Attribute) and n.attr == "device" and \
             isinstance(n.value, ast.Name) and n.value.id == "self"
-    direct, called, loads = [], set(), []
-    for n in ast.walk(tree):
-        if isinstance(n, ast.Call) and isinstance(n.func, ast.Attribute):
-            if is_self_device(n.func.value):
-                direct.append((n.func.attr, n.lineno, n.end_lineno))
-                called.add(id(n.func))
-            elif isinstance(n.func.value, ast.Name) and \
-                    n.func.value.id == "device" and n.func.attr == "connect":
-                direct.append(("connect", n.lineno, n.end_lineno))
-    for n in ast.walk(tree):
-        if isinstance(n, ast.Attribute) and is_self_device(n.value) and \
-                id(n) not in called:
-            loads.append(n.attr)
-    return sorted(direct), sorted(set(loads))
+    direct, indirect, count, called = [], [], {}, set()
+
+    def visit(node, func):
+        for child in ast.iter_child_nodes(node):
+            f = child.name if isinstance(
+                child, (ast.FunctionDef, ast.AsyncFunctionDef)) else func
+            if isinstance(child, ast.Call) and \
+                    isinstance(child.func, ast.Attribute):
+                m = None
+                if is_self_device(child.func.value):
+                    m = child.func.attr
+                    called.add(id(child.func))
+                elif isinstance(child.func.value, ast.Name) and \
+                        child.func.value.id == "device" and \
+                        child.func.attr == "connect":
+                    m = "connect"
+                if m is not None:
+                    n = count[(func, m)] = count.get((func, m), 0) + 1
+                    direct.append(("site:%s:%s#%d" % (func, m, n), m,
+                                   child.lineno, child.end_lineno))
+            if isinstance(child, ast.Attribute) and is_self_device(child.value) \
+                    and id(child) not in called:
+                indirect.append(("site:%s:%s:indirect" % (func, child.attr),
+                                 child.attr, func))
+            visit(child, f)
+    visit(tree, "<module>")
+    return direct, sorted(set(indirect))
 
 
 DIRECT, INDIRECT = scan_sites()
 
 
-def site_label(method, line):
-    for name, lo, hi in DIRECT:
+def site_label(method, fn, line):
+    for label, name, lo, hi in DIRECT:
         if name == method and lo <= line <= hi:
-            return "site:%s:%d" % (name, lo)
-    if method in INDIRECT:
-        return "site:%s:indirect" % method
+            return label
+    for label, name, func in INDIRECT:
+        if name == method and func == fn:
+            return label
     return None
 
 
@@ -87,13 +106,15 @@ def make_hook(sx, log, bad):
         bad_clf[:] = [dev.clf, entry]
         log.append([method, entry, fn, bool(locked), bool(current)])
         where = "%s@%s/%s" % (method, entry, fn)
-        site = site_label(method, line)
+        site = site_label(method, fn, line)
         labels = []
         if site is None:
             labels.append("driver-call-from-unscanned-site:" + where)
         else:
             sx.reach(site)
-        if not locked and getattr(dev, "lock_owner", None) == "other":
+        if dev.clf is not None and lock_replaced(dev.clf):
+            labels.append("frontend-lock-replaced:" + entry)
+        if getattr(dev, "lock_owner", None) == "other":
             # the lock is held, but by somebody else: two threads in the driver
             labels.append("driver-call-while-lock-held-by-other-thread:%s@%s"
                           % (method, entry))
@@ -114,7 +135,11 @@ def run(sx, scn, **params):
     getattr(C, scn)(sx, mode="lock", hook=make_hook(sx, log, bad), **params)
     sx.reach("entry:" + scn)
     clf, entry = bad_clf
-    if clf is not None and clf.lock.deadlocks:
+    if clf is not None and lock_replaced(clf):
+        l = "frontend-lock-replaced:" + entry
+        if not any(b.startswith("frontend-lock-replaced:") for b in bad):
+            bad.append(l)
+    if clf is not None and clf.guard_lock.deadlocks:
         bad.append("lock-acquired-while-held:" + entry)
     if clf is not None and clf.lock.locked():
         # nobody is inside the frontend any more: a lock that is still held
@@ -136,7 +161,8 @@ def connect_scn(sx, **params):
 # ----------------------------------------------------------------------------
 CONTENDED_OPS = ["sense", "listen", "exchange-cmd", "exchange-rsp",
                  "max_send_data_size", "max_recv_data_size", "close",
-                 "__exit__", "open", "connect-rdwr", "connect-llcp",
+                 "__exit__", "open", "open-closed", "connect-rdwr",
+                 "connect-llcp",
                  "connect-card"]
 
 
@@ -166,8 +192,12 @@ def contended_scn(sx, op):
         envo.response = lambda k: nfc.clf.LocalTarget(
             "212F", tt3_cmd=sx.mkbytes([0x00, 0xFF, 0xFF, 0x01, 0x00]))
         clf.listen(C.mk_local(sx, "ttf"), 0.1)
+    if op == "open-closed":
+        dev.entry = "close"
+        clf.close()
     dev.entry = op
-    clf.lock.hold_as_other()
+    guard = clf.guard_lock
+    guard.hold_as_other()
     if op == "sense":
         st, v = C.call(clf.sense, C.mk_target(sx, "A"), C.mk_target(sx, "F"))
     elif op == "listen":
@@ -182,7 +212,9 @@ def contended_scn(sx, op):
         st, v = C.call(clf.close)
     elif op == "__exit__":
         st, v = C.call(clf.__exit__, None, None, None)
-    elif op == "open":
+    elif op in ("open", "open-closed"):
+        # open: second open() of a frontend that is open (closes the old
+        # driver, then searches the new one); open-closed: frontend closed
         tr2 = Trace()
         dev2 = RecDevice(sx, SlotEnv(sx, tr2), tr2)
         dev2.hook = dev.hook
@@ -199,14 +231,17 @@ def contended_scn(sx, op):
             terminate=lambda: False)
     else:
         raise ValueError(op)
-    if st == "limit" and isinstance(v, WouldBlock) and clf.lock.blocked == 1:
+    if st == "limit" and isinstance(v, WouldBlock) and guard.blocked == 1:
         sx.reach("contended:%s:waits" % op)
         sx.check(True, "waits for the lock")
     else:
         bad.append("entry-point-did-not-wait-for-lock:" + op)
-    if clf.lock.owner != "other":
+    if lock_replaced(clf) and \
+            not any(b.startswith("frontend-lock-replaced:") for b in bad):
+        bad.append("frontend-lock-replaced:" + op)
+    if guard.owner != "other":
         bad.append("lock-of-other-thread-released-by:" + op)
-    clf.lock.release_other()
+    guard.release_other()
     if clf.lock.locked():
         bad.append("lock-left-held-after:" + op)
     if bad:
@@ -270,8 +305,7 @@ def partitions(tier):
     return parts
 
 
-MUST_REACH = ["site:%s:%d" % (n, lo) for n, lo, hi in DIRECT] + \
-    ["site:%s:indirect" % n for n in INDIRECT] + \
+MUST_REACH = [d[0] for d in DIRECT] + [i[0] for i in INDIRECT] + \
     ["entry:" + s for s in ("connect_scn", "sense_scn", "listen_scn",
                             "stale_scn", "lifecycle_scn")] + \
     ["contended:%s:waits" % op for op in CONTENDED_OPS] + \
@@ -296,7 +330,13 @@ BOUNDS = {
              "thread grabs the lock after any one of the first 6 (8) "
              "callbacks/terminate polls: no driver call until it is released. "
              "'Held' means held by the caller: a failed acquire(False) does "
-             "not count",
+             "not count.  The frontend lock is ONE object: clf.lock must be "
+             "the GuardLock installed at construction at every driver call "
+             "and after every scenario (frontend-lock-replaced), and the "
+             "other thread always holds that original object; open() of an "
+             "open and of a closed frontend are among the contended entry "
+             "points.  Call sites are named by function/method/ordinal, not "
+             "by line",
     "thorough": "as quick with the thorough bounds of harness/c18_connect.py",
 }
 OUTSIDE = [
